@@ -77,6 +77,7 @@ type jobResult struct {
 	wall      float64
 	pairBits  []byte
 	siteHits  []byte
+	stalls    []uint64
 	siteNames []string
 	digests   map[uint64]string
 	evlines   map[uint64][]string
@@ -384,6 +385,11 @@ func runWorker(cfg *config, job *Job, from, to, stride uint64, deadline time.Tim
 	case killed:
 		jr.infra = append(jr.infra, fmt.Sprintf("watchdog: worker made no progress for 300 s in run %d of job %s (seed %d)", inflight, job.Name, job.Seed))
 		return 0, true
+	case code == 4 && inflight >= 0:
+		// the run blocked inside a primitive the simulator does not own
+		jr.stalls = append(jr.stalls, uint64(inflight))
+		jr.runs++
+		return uint64(inflight) + stride, false
 	case code == 3 && restartAfter >= 0:
 		// the worker found package-level state corrupted and exited so that
 		// later runs start from pristine state
@@ -554,14 +560,20 @@ func explore(cfg *config) int {
 	fmt.Printf("apdsim: property=%s tier=%s VERIF_SEED=%d jobs=%d\n", cfg.prop, cfg.tier, cfg.seed, len(jobs))
 	var results []*jobResult
 	var infra []string
+	stalled := 0
 	for _, j := range jobs {
 		jr := runJob(cfg, j)
 		results = append(results, jr)
 		infra = append(infra, jr.infra...)
 		fmt.Printf("  job %-28s build=%s race=%v runs=%d nontrivial-distinct=%d failures=%d wall=%.1fs\n", j.Name, j.Variant.Label, j.Race, jr.runs, len(jr.nontriv), len(jr.failures), jr.wall)
+		if len(jr.stalls) > 0 {
+			fmt.Printf("WARNING: %d run(s) of job %s could not be simulated: a task blocked inside a primitive the simulator does not own (channel, sync.Cond, sync.WaitGroup ...) while holding the processor (first: run %d)\n", len(jr.stalls), j.Name, jr.stalls[0])
+			stalled += len(jr.stalls)
+		}
 	}
 	// extra phases (cross-process history oracle, determinism self-test)
 	extra := map[string]interface{}{}
+	extra["runs_not_simulated_blocking_primitive"] = stalled
 	var extraFailures []failure
 	if cfg.prop == "C06" {
 		f, inf, st := historyOracle(cfg)
